@@ -297,3 +297,47 @@ class Region:
             if holds(c1 * k + c0) == left_truth and holds(c1 * (k + 1) + c0) != left_truth:
                 raise SplitNeeded(k)
         raise AnalysisError('cannot split region %r for %s*n+%s %s 0' % (self, c1, c0, op))
+
+
+# ====================================================================== exact unrolling under a case
+class Unbounded(Exception):
+    """A loop is still running after 3000 iterations under an abstract case that decides its test
+    on every iteration."""
+
+
+class UnrollMixin:
+    """Hooks mixin: `while` loops whose test the abstract case decides are unrolled exactly (the
+    values stay abstract terms; only case-decided tests and literal counters drive the control
+    flow); a loop whose test is not decided falls back to the havoc summary and sets
+    `uncountable`."""
+    unroll = False
+    uncountable = False
+
+    def unroll_loop(self, interp, node, st):
+        if not (self.unroll and isinstance(node, ast.While)):
+            return None
+        return self._unroll(interp, node, st, 0)
+
+    def _unroll(self, interp, node, st, depth):
+        from .interp import Outcome
+        if depth > 3000:
+            raise Unbounded(node.lineno)
+        for c, s in interp.ev_cond(node.test, st):
+            if s.raised:
+                yield Outcome('raise', s.raised, s)
+                continue
+            t = interp.decide(c, s)
+            if t is None:
+                self.uncountable = True
+                yield from interp.loop_havoc(node, s, test=node.test)
+                continue
+            if not t:
+                yield Outcome('fall', None, s)
+                continue
+            for out in interp.exec_block(node.body, s):
+                if out.kind in ('fall', 'continue'):
+                    yield from self._unroll(interp, node, out.state, depth + 1)
+                elif out.kind == 'break':
+                    yield Outcome('fall', None, out.state)
+                else:
+                    yield out
